@@ -459,7 +459,7 @@ def check_c18(prop, tier):
             res.add_sample({k: events[0][k] for k in ("op", "samples", "args", "st", "ret", "hung")})
             res.add_sample({k: v for k, v in events[-1].items() if k in ("op", "args", "st", "retaudio", "rettg", "pretg")})
         res.notes = dict(machine_runs=len(emitted), impl_drift=ndrift)
-        res.assumptions = ["a search that runs longer than 5 s (measured: < 1 ms) counts as non-termination",
+        res.assumptions = ["a search that burns more than 2 s of CPU time of its process (measured: < 1 ms) counts as non-termination; wall time is not used, so a worker that is merely not scheduled on a busy machine is not a hang",
                            "splice and tgBoundariesToZeroCrossings are exercised on sample positions; alignToZeroCrossing=True splices are "
                            "judged only on the clauses that do not depend on where the crossings are"]
         return finish(res, prop, tier, events, work, ["C18_"],
